@@ -185,6 +185,17 @@ fn tuples(shapes: Vec<Shape>) -> BoxedStrategy<Tuple> {
             s.push_str(&if upper { body.to_uppercase() } else { body });
             Bytes(s.into_bytes())
         }),
+        // numerals around the bounds of the type (MAX, MAX + 1 ..., |MIN|, 2^W + a chunk-sized tail): the point at which a
+        // chunked parser overflows depends on the digit type, the verdict must not
+        3 => (0u8..3, prop_oneof![Just(0u64), Just(1), Just(2)], any::<bool>(), prop_oneof![3 => -3i64..=3, 2 => any::<i64>().prop_map(|x| x % 1_000_000_000_000), 1 => any::<i64>()], 0u32..2).prop_map(move |(sign, half, minus, delta, radix16)| {
+            let w = sh0.bits() as u64;
+            let base = match half { 0 => Z::pow2(w), 1 => Z::pow2(w - 1), _ => Z::pow2(w).add(&Z::pow2(w - 1)) };
+            let z = if minus { base.sub(&Z::from_i64(delta.abs())) } else { base.add(&Z::from_i64(delta.abs())) };
+            let z = if z.is_neg() { Z::zero() } else { z };
+            let mut s = match sign { 1 => "+".to_string(), 2 => "-".to_string(), _ => String::new() };
+            s.push_str(&z.to_str_radix(if radix16 == 1 { 16 } else { 10 }));
+            Bytes(s.into_bytes())
+        }),
         2 => proptest::collection::vec(prop_oneof![b'0'..=b'9', b'a'..=b'z', b'A'..=b'Z'], 0..12).prop_map(Bytes),
         2 => proptest::collection::vec(any::<u8>(), 0..(2 * sh0.bytes + 3)).prop_map(Bytes),
         1 => proptest::collection::vec(prop_oneof![Just(b'0'), Just(b'1'), Just(b'-'), Just(b'+'), Just(b' '), Just(b'_'), Just(0xc3u8), Just(0xa9u8)], 0..8).prop_map(Bytes),
@@ -437,7 +448,7 @@ fn main() {
     runner::main(
         Property {
             id: "C16",
-            rule: "(a) For each of the width groups {16, 32, 48, 64, 96, 128, 192, 320, 2080, 4160} (2-4 digit types each; the last two have more than 256 digits of the narrowest digit type and a twelfth of the budget) one operand tuple (three W-bit patterns structured for the 8-bit and for the widest digit size, a shift/rotate amount, an exponent, a radix, a text / byte string - decimal numerals with up to BITS + 8 redundant leading zeros among them -, float bits) is loaded into every member and a table of ~280 operations (every overflow mode of add/sub/mul/div/rem, shifts, rotations, bit operations, comparison, pow, ilog, radix output, parsing of strings and digit slices, byte slices, all eight formatting traits with three flag specifications, casts to f32/f64/every primitive and from floats, operators with their profile-dependent panic outcome) is evaluated in each; results are normalised to strings ('Panicked' for a panic; the error kind of long invalid strings, which the property leaves open, to 'Err(any)') and must be identical across the group, and As casts between the members must preserve the pattern. Differential oracle, no reference model. (b) 18 (narrow, wide) pairs (same and different digit types, zero- and sign-extension): whenever the exact result is representable in the narrow type (decided by the reference integer), add/sub/mul/div/rem/pow/shl/cmp/decimal print/decimal parse on the extended operands equals the extension of the narrow result. (c) BITS, BYTES, MIN, MAX, ZERO, ONE..TEN, NEG_ONE..NEG_TEN for all 86 types and the aliases U128..I8192: enumerated completely. NON-TRIVIAL: (a) both main operands non-zero; (b) at least three operations had a representable exact result with non-zero operands; (c) every constant. distinct = distinct (profile, job, inputs) by 64-bit hash.",
+            rule: "(a) For each of the width groups {16, 32, 48, 64, 96, 128, 192, 320, 2080, 4160} (2-4 digit types each; the last two have more than 256 digits of the narrowest digit type and a twelfth of the budget) one operand tuple (three W-bit patterns structured for the 8-bit and for the widest digit size, a shift/rotate amount, an exponent, a radix, a text / byte string - decimal numerals with up to BITS + 8 redundant leading zeros and numerals around 2^W, 2^(W-1) and 1.5 * 2^W among them -, float bits) is loaded into every member and a table of ~280 operations (every overflow mode of add/sub/mul/div/rem, shifts, rotations, bit operations, comparison, pow, ilog, radix output, parsing of strings and digit slices, byte slices, all eight formatting traits with three flag specifications, casts to f32/f64/every primitive and from floats, operators with their profile-dependent panic outcome) is evaluated in each; results are normalised to strings ('Panicked' for a panic; the error kind of long invalid strings, which the property leaves open, to 'Err(any)') and must be identical across the group, and As casts between the members must preserve the pattern. Differential oracle, no reference model. (b) 18 (narrow, wide) pairs (same and different digit types, zero- and sign-extension): whenever the exact result is representable in the narrow type (decided by the reference integer), add/sub/mul/div/rem/pow/shl/cmp/decimal print/decimal parse on the extended operands equals the extension of the narrow result. (c) BITS, BYTES, MIN, MAX, ZERO, ONE..TEN, NEG_ONE..NEG_TEN for all 86 types and the aliases U128..I8192: enumerated completely. NON-TRIVIAL: (a) both main operands non-zero; (b) at least three operations had a representable exact result with non-zero operands; (c) every constant. distinct = distinct (profile, job, inputs) by 64-bit hash.",
             assumptions: &[
                 "digits()/from_digits()/to_bits()/from_bits() are the trusted observation channel",
                 "(a) is purely differential: a defect common to all digit types is invisible here and is the business of C01-C15",
